@@ -148,9 +148,9 @@ FAMILIES["purity"] = {
             {"kind": "arm", "name": "is_min_purity ImplPrim arm", "file": "src/tree.rs", "impl": r"^impl Node \{", "fn": "is_min_purity", "inner_fn": "recurse",
              "arm": r"Node::ImplPrim\(prim, _\)", "sig": ARMSIG_P.format(n="imp_arm_implprim")},
             {"kind": "arm", "name": "is_min_purity Mod arm", "file": "src/tree.rs", "impl": r"^impl Node \{", "fn": "is_min_purity", "inner_fn": "recurse",
-             "arm": r"Node::Mod\(prim, args, _\)", "sig": ARMSIG_M.format(n="imp_arm_mod")},
+             "arm": r"Node::Mod\((?:prim|_), args, _\)", "sig": ARMSIG_M.format(n="imp_arm_mod")},
             {"kind": "arm", "name": "is_min_purity ImplMod arm", "file": "src/tree.rs", "impl": r"^impl Node \{", "fn": "is_min_purity", "inner_fn": "recurse",
-             "arm": r"Node::ImplMod\(prim, args, _\)", "sig": ARMSIG_M.format(n="imp_arm_implmod")},
+             "arm": r"Node::ImplMod\((?:prim|_), args, _\)", "sig": ARMSIG_M.format(n="imp_arm_implmod")},
             {"kind": "arm", "name": "matches_nodes Mod arm", "file": "src/compile/pre_eval.rs", "impl": r"^impl PreEvalMode \{", "fn": "matches_nodes",
              "arm": r"Node::Mod\(prim, args, _\)", "sig": "pub fn mn_arm_mod(prim: &Prim, args: &[SigNode], mode: PreEvalMode, asm: &Assembly, visited: &mut Visited) -> bool",
              "rewrites": (("R6", r"\brecurse\(mode,", "recurse_m(mode,", "nested fn renamed"),)},
